@@ -208,6 +208,9 @@ func c09(r *core.Run) {
 	c09Maps(r)
 	c09Count(r)
 	c09Diverge(r)
+	// "every function of the old file and of the new file": the collection that feeds the report enumerates every
+	// function with a body, nested literals of synthetic initialisers included (shared with C16)
+	c16EnumRule(r, "C09.ENUM")
 }
 
 func c19(r *core.Run) {
@@ -584,6 +587,66 @@ func c09Diverge(r *core.Run) {
 		})
 	}
 	r.Floor("C09.DIVERGE", "appends to the Added/Removed operation lists", n, 2)
+
+	// ... and nothing rewrites the lists between their collection and the report: every other store into them, and
+	// every store into the report's AddedOps/RemovedOps, is the list as collected (sorting in place keeps the multiset)
+	nFlow := 0
+	isListField := func(fa *ssa.FieldAddr) (string, bool) {
+		f := core.FieldName(fa.X.Type(), fa.Field)
+		switch {
+		case core.IsNamed(fa.X.Type(), diffPath(p), "ZipperArtifacts") && (f == "Added" || f == "Removed"):
+			return f, true
+		case core.IsNamed(fa.X.Type(), modelsPath(p), "FunctionDiff") && (f == "AddedOps" || f == "RemovedOps"):
+			return f, true
+		}
+		return "", false
+	}
+	for _, fn := range append(p.FuncsIn("pkg/diff"), p.FuncsIn("internal/cli")...) {
+		core.InstrsOf(fn, func(in ssa.Instruction) {
+			st, ok := in.(*ssa.Store)
+			if !ok {
+				return
+			}
+			// an element overwritten in place
+			if ia, isIA := st.Addr.(*ssa.IndexAddr); isIA {
+				if u, isLoad := ia.X.(*ssa.UnOp); isLoad && u.Op == token.MUL {
+					if fa, isFA := u.X.(*ssa.FieldAddr); isFA {
+						if f, isList := isListField(fa); isList {
+							nFlow++
+							r.Fail("C09.DIVERGE", core.FuncName(fn)+"#"+f+"/rewritten", st.Pos(), "an element of the "+f+" list is overwritten after collection: the list is no longer the unpaired instructions")
+						}
+					}
+				}
+				return
+			}
+			fa, ok := st.Addr.(*ssa.FieldAddr)
+			if !ok {
+				return
+			}
+			f, isList := isListField(fa)
+			if !isList {
+				return
+			}
+			if _, isAppend := isBuiltinCall(st.Val, "append"); isAppend && core.IsNamed(fa.X.Type(), diffPath(p), "ZipperArtifacts") {
+				return // decided above
+			}
+			nFlow++
+			v := core.Unwrap(st.Val)
+			okFlow, what := false, core.Canon(v)
+			if k, isC := v.(*ssa.Const); isC && k.Value == nil {
+				okFlow = true
+			}
+			if u, isLoad := v.(*ssa.UnOp); isLoad && u.Op == token.MUL {
+				if fa2, isFA := u.X.(*ssa.FieldAddr); isFA {
+					if _, isList2 := isListField(fa2); isList2 {
+						okFlow = true
+					}
+				}
+			}
+			r.Check(okFlow, "C09.DIVERGE", core.FuncName(fn)+"#"+f+"/flow", st.Pos(), "the list reaches the report as collected", "the "+f+" list is replaced by "+what+" after collection (de-duplicated, truncated or filtered): it is no longer exactly the instructions left unpaired, and counts derived from it no longer add up")
+		})
+	}
+	r.Floor("C09.DIVERGE", "stores that carry the operation lists into the report", nFlow, 2)
 }
 
 // loopBody: the natural loop of header h (blocks dominated by h that reach h without leaving its dominance region).
